@@ -7,4 +7,6 @@
 @closure 0 params="stats: &ChunkTimingStats" ret="o: Option<chrono::Duration>"
     ensures o == avg_timing(*stats, characteristics)
 @closure 1 params="stats: &ChunkTimingStats" ret="o: Option<f64>"
-    ensures o == avg_attempts(*stats, characteristics), o matches Some(a) ==> (a as i64) >= 0
+    ensures o == avg_attempts(*stats, characteristics), o matches Some(a) ==> f64_as_i64(a) >= 0
+@entry
+    broadcast use chrono::axiom_duration_add_assign;
